@@ -55,6 +55,7 @@ def run(F, R, tier):
         if fn in fns and k not in keys:
             R.note("tables/justified_sites.json names a site that no longer exists: %s" % k)
     invariants(F, R)
+    token_progress(F, R)
     progress(F, R, A)
     diagnostics(F, R, A)
 
@@ -368,3 +369,146 @@ def diagnostics(F, R, A):
             det.append("bb%d:%s" % (vb, sorted(have)))
             ok = ok and have == {"parsed", "compiled"}
         R.ob("errors-stop-execution", "%s: VM::new*/run dominated by Some(program) and Ok(compile)" % fn, ok, "; ".join(det), F.loc(g))
+
+
+# ---------------------------------------------------------------------------
+def token_progress(F, R):
+    """Scanner::next_token consumes input whenever it returns a token that is not end-of-input.
+
+    Abstract interpretation over a finite partition of the character domain: the current character and the look-ahead
+    character range over one representative of every class the scanner's own tests can tell apart (every character
+    literal it mentions, an ASCII digit, letters, a non-ASCII letter, a non-ASCII numeral, a hex letter, '_', blanks,
+    another symbol).  For each pair the paths of next_token (with the scanner's readers inlined) are enumerated, the
+    conditions on the two characters decided, everything else left open; a path that reaches a return without any
+    read_char() is a token produced without progress — the parser then receives the same token for ever."""
+    SC = "scanner::Scanner::"
+    g = F.fn(SC + "next_token")
+    if not R.anchor(SC + "next_token", g):
+        return
+    opaque = tuple(SC + x for x in ("read_char", "peek_char", "skip_whitespace", "skip_comments", "lookup_identifier", "new", "get_line")) + \
+        ("scanner::token::Token::new",)
+    body = H.inline_helpers(F, H.body_of(g), depth=4, max_size=600, skip=opaque)
+    lits = set()
+    for p, f in F.fns.items():
+        if p.startswith(SC) and H.body_of(f) is not None:
+            for x in H.walk(H.body_of(f)):
+                if x.get("k") == "lit" and x.get("lk") == "char" and isinstance(x.get("v"), str) and len(x["v"]) == 1:
+                    lits.add(x["v"])
+    reps = sorted(lits | {"5", "a", "Z", "g", "f", "é", "²", "٣", "_", " ", "\n", "§", "\0"})
+    peek_ids = {x["pat"]["id"] for x in H.walk(body) if x.get("k") == "let" and x.get("pat", {}).get("k") == "bind" and x.get("init") is not None and
+                H.strip(x["init"]).get("k") == "mcall" and H.strip(x["init"]).get("callee") == SC + "peek_char"}
+    PRED = {
+        "is_ascii_digit": lambda c: c.isascii() and c.isdigit(), "is_ascii_hexdigit": lambda c: c.isascii() and c in "0123456789abcdefABCDEF",
+        "is_alphabetic": lambda c: c.isalpha(), "is_alphanumeric": lambda c: c.isalpha() or c.isnumeric(), "is_numeric": lambda c: c.isnumeric(),
+        "is_ascii_alphabetic": lambda c: c.isascii() and c.isalpha(), "is_ascii_alphanumeric": lambda c: c.isascii() and c.isalnum(),
+        "is_whitespace": lambda c: c.isspace(), "is_ascii_whitespace": lambda c: c in " \t\n\r\x0c", "is_ascii": lambda c: c.isascii(),
+        "is_ascii_punctuation": lambda c: c.isascii() and not c.isalnum() and not c.isspace() and c.isprintable(),
+        "is_control": lambda c: ord(c) < 32 or ord(c) == 127, "is_uppercase": lambda c: c.isupper(), "is_lowercase": lambda c: c.islower(),
+    }
+
+    def char_of(n, c, pk):
+        n = H.strip(n)
+        if n.get("k") == "field" and n.get("name") == "ch" and n.get("base_ty", "").endswith("scanner::Scanner"):
+            return c
+        if n.get("k") == "mcall" and n.get("callee") == SC + "peek_char":
+            return pk
+        if H.is_local(n) and H.local_id(n) in peek_ids:
+            return pk
+        if n.get("k") == "lit" and n.get("lk") == "char":
+            return n["v"]
+        return None
+
+    def pat_match(pt, ch):
+        k = pt.get("k")
+        if k == "wild" or k == "bind":
+            return True
+        if k == "plit" and pt["lit"].get("lk") == "char":
+            return pt["lit"]["v"] == ch
+        if k == "or":
+            rs = [pat_match(q, ch) for q in pt["pats"]]
+            return True if any(r is True for r in rs) else (None if any(r is None for r in rs) else False)
+        if k == "range":
+            lo, hi = pt.get("lo", {}).get("v"), pt.get("hi", {}).get("v")
+            if isinstance(lo, str) and isinstance(hi, str):
+                return lo <= ch <= hi
+        return None
+
+    def make(c, pk):
+        def val(n):
+            n = H.strip(n)
+            k = n.get("k")
+            while k == "block" and not n.get("stmts") and n.get("expr") is not None:
+                n = H.strip(n["expr"])
+                k = n.get("k")
+            if k == "lit" and n.get("lk") == "bool":
+                return bool(n["v"])
+            if k == "un" and n.get("op") == "!":
+                v = val(n["e"])
+                return None if v is None else (not v)
+            if k == "bin" and n["op"] in ("&&", "||"):
+                l, r = val(n["l"]), val(n["r"])
+                if n["op"] == "&&":
+                    return False if (l is False or r is False) else (True if (l and r) else None)
+                return True if (l is True or r is True) else (False if (l is False and r is False) else None)
+            if k == "bin" and n["op"] in ("==", "!="):
+                a, b = char_of(n["l"], c, pk), char_of(n["r"], c, pk)
+                if a is not None and b is not None:
+                    return (a == b) == (n["op"] == "==")
+                return None
+            if k == "mcall" and n["m"] in PRED and not n.get("args"):
+                a = char_of(n["recv"], c, pk)
+                return PRED[n["m"]](a) if a is not None else None
+            if k == "match" and not H.is_try(n):
+                a = char_of(n["scrut"], c, pk)
+                if a is not None:
+                    for arm in n["arms"]:
+                        m_ = pat_match(arm["pat"], a)
+                        if m_ is None:
+                            return None
+                        if m_:
+                            if arm.get("guard") is not None:
+                                gv = val(arm["guard"])
+                                if gv is None:
+                                    return None
+                                if not gv:
+                                    continue
+                            return val(arm["body"])
+                return None
+            if k == "block" and n.get("inlined") and not n.get("stmts"):
+                return val(n["expr"])
+            return None
+
+        def arm(n):
+            a = char_of(n["scrut"], c, pk)
+            if a is None:
+                return None
+            out = []
+            for i, arm_ in enumerate(n["arms"]):
+                m_ = pat_match(arm_["pat"], a)
+                if m_ is None:
+                    return None
+                if m_:
+                    out.append(i)
+                    if arm_.get("guard") is None:
+                        break
+            return out
+        return val, arm
+    bad = []
+    n_pairs = 0
+    for c in reps:
+        if c == "\0" or c.isspace() or c == "#":
+            continue          # end of input; blanks and comment starts are consumed by the skipping before the dispatch
+        for pk in reps:
+            n_pairs += 1
+            val, arm = make(c, pk)
+            ps = H.paths(body, val, limit=3000, arm_oracle=arm)
+            for evs, ex in ps:
+                if ex == "limit":
+                    bad.append(("%r/%r" % (c, pk), "path limit reached"))
+                    break
+                if not any(e_[0] == "call" and e_[1] == SC + "read_char" for e_ in evs):
+                    bad.append(("%r/%r" % (c, pk), "a path returns (%s) without read_char()" % ex))
+                    break
+    R.ob("token-progress", "next_token consumes at least one character on every path that starts at a non-blank, non-NUL character",
+         not bad, "character classes × look-ahead classes examined: %d; without progress: %s" % (n_pairs, bad[:4]), F.loc(g))
+    R.floor("character-class pairs examined", n_pairs, 400)
